@@ -913,7 +913,7 @@ pub fn stress_parts(id: &str) -> Vec<StressPart> {
         "C02" => vec![p(Kind::Invariants, 640, 12000, 25), p(Kind::Validated, 200, 4000, 25), pc(Kind::Invariants, 2400, 20000, 25)],
         "C17" => vec![p(Kind::Invariants, 640, 12000, 25), p(Kind::Lookups, 240, 4000, 35)],
         "C01" | "C06" => vec![p(Kind::Invariants, 640, 12000, 25)],
-        "C08" => vec![p(Kind::Invariants, 640, 12000, 25), p(Kind::Close, 640, 10000, 30)],
+        "C08" => vec![p(Kind::Invariants, 640, 16000, 25), p(Kind::Close, 640, 10000, 30)],
         "C11" => vec![p(Kind::Invariants, 640, 12000, 25)],
         "C04" => vec![p(Kind::Invariants, 320, 6000, 25)],
         "C05" => vec![p(Kind::Reclaim, 96, 2000, 50)],
